@@ -188,10 +188,14 @@ Definition pp_handle (mx : nat) (s0 : st) (lk : list (option nat)) : st :=
       let s := abandon_check s0 in
       let r := retries_of m in
       if hwm s <? r then
-        if mx <? r then set_crash s CR_LEVEL
-        else match cur s with
-             | None => set_crash s CR_NIL_BP
-             | Some b => fwd_head (mark s b r) lk
+        (* a new retry level sends its chaser through the current broker worker: one is obtained first, a failed
+           lookup fails the message (repo commit b3ac13a; the pinned tree dereferenced nil here) *)
+        let '(s1, ok, lk1) := ensure_bp s lk in
+        if negb ok then pop s1
+        else if mx <? r then set_crash s1 CR_LEVEL
+        else match cur s1 with
+             | None => set_crash s1 CR_NIL_BP
+             | Some b => fwd_head (mark s1 b r) lk1
              end
       else if 0 <? hwm s then
         if r <? hwm s then
